@@ -56,7 +56,10 @@ def gen_pattern(rng, names, home):
     if r < 0.85:
         return rng.choice([home + '/w/' + nm.replace('[', '?'), home + '/*', '/*', '/*/' + nm.replace('[', '?'), '/media/*', '/media/v1/docs/*',
                            '/*foo', home + '/w/sub/*', '/home/u/w/[fF]*', '/*/*/*/*'])
-    return rng.choice(['nomatch', 'FOO', 'foo', 'f??', '*.*', '?', '??', '*o*', 'a[*]b', 'a[?]b'])
+    return rng.choice(['nomatch', 'FOO', 'foo', 'f??', '*.*', '?', '??', '*o*', 'a[*]b', 'a[?]b',
+                       # relative patterns that begin with a wildcard and could match THROUGH directory components if they were
+                       # (wrongly) applied to the whole path: only the base name counts
+                       '*sub*', '*/*', '[!a]*', '*w*', '*docs*', '*home*', '?*/*', '*deeper*', '[!z]*u*'])
 
 
 def gen(rng):
